@@ -52,7 +52,7 @@ M = [
     ("eager-explicit-port-default-dropped", U, '        cache["explicit_port"] = port\n', '        cache["explicit_port"] = None if port == DEFAULT_PORTS.get(scheme) else port\n', ["C09", "C17"]),
     ("hash-ignores-fragment", U, "                (self._scheme, self._netloc, path, self._query, self._fragment)\n            )\n        return ret", "                (self._scheme, self._netloc, path, self._query)\n            )\n        return ret", []),
     ("eq-ignores-path-normalisation", U, "        path2 = \"/\" if not other._path and other._netloc else other._path", "        path2 = other._path", ["C10"]),
-    ("getstate-drops-fragment", U, "        return (tuple.__new__(SplitResult, self._val),)", "        return (tuple.__new__(SplitResult, self._val[:4] + (\"\",)),)", ["C09", "C08"]),
+    ("getstate-drops-fragment", U, "        return (tuple.__new__(SplitResult, self._val),)", "        return (tuple.__new__(SplitResult, self._val[:4] + (\"\",)),)", ["C09"]),  # (not a C08 matter: the original is untouched and the outcome does not depend on history)
     ("with-user-keeps-password-on-none", U, "        if user is None:\n            password = None", "        if user is None:\n            password = self.raw_password", ["C11"]),
     ("with-port-brackets-lost", U, "        encoded_host = self.host_subcomponent or \"\"\n        netloc = make_netloc(self.raw_user, self.raw_password, encoded_host, port)\n        return from_parts(self._scheme, netloc, self._path, self._query, self._fragment)\n\n    def with_path", "        encoded_host = self.raw_host or \"\"\n        netloc = make_netloc(self.raw_user, self.raw_password, encoded_host, port)\n        return from_parts(self._scheme, netloc, self._path, self._query, self._fragment)\n\n    def with_path", ["C11", "C17"]),
     ("with-name-keeps-query", U, "        query = self._query if keep_query else \"\"\n        fragment = self._fragment if keep_fragment else \"\"\n        return from_parts(self._scheme, netloc, \"/\".join(parts), query, fragment)", "        query = self._query\n        fragment = self._fragment if keep_fragment else \"\"\n        return from_parts(self._scheme, netloc, \"/\".join(parts), query, fragment)", ["C11"]),
@@ -68,7 +68,7 @@ M = [
     ("human-repr-query-semicolon", U, '            "{}={}".format(human_quote(k, "#&+;="), human_quote(v, "#&+;="))', '            "{}={}".format(human_quote(k, "#&+;="), human_quote(v, "#&+="))', []),
     ("human-repr-raw-host", U, "        if (host := self.host) and \":\" in host:\n            host = f\"[{host}]\"\n        path = human_quote", "        if (host := self.raw_host) and \":\" in host:\n            host = f\"[{host}]\"\n        path = human_quote", ["C18"]),
     ("encode-host-cache-key-drops-validate", U, "@lru_cache(_DEFAULT_ENCODE_SIZE)\ndef _encode_host(host: str, validate_host: bool) -> str:\n    \"\"\"Encode host part of URL.\"\"\"", "def _encode_host(host: str, validate_host: bool) -> str:\n    return _encode_host_cached(host) if not validate_host or host in _SEEN else _encode_host_impl(host, validate_host)\n\n\n_SEEN: set = set()\n\n\n@lru_cache(_DEFAULT_ENCODE_SIZE)\ndef _encode_host_cached(host: str) -> str:\n    _SEEN.add(host)\n    return _encode_host_impl(host, False)\n\n\ndef _encode_host_impl(host: str, validate_host: bool) -> str:\n    \"\"\"Encode host part of URL.\"\"\"", []),
-    ("host-lower-skipped-for-ip-like", U, "    if host.isascii():\n        host = host.lower()", "    if host.isascii():\n        host = host.lower() if not host[-1:].isdigit() else host", ["C16", "C03"]),
+    ("host-lower-skipped-for-ip-like", U, "    if host.isascii():\n        host = host.lower()", "    if host.isascii():\n        host = host.lower() if not host[-1:].isdigit() else host", ["C16"]),  # (the unfolded host is stable under re-parsing, so C03 has nothing to see)
     ("default-port-table-ws", U, 'DEFAULT_PORTS = {"http": 80, "https": 443, "ws": 80, "wss": 443, "ftp": 21}', 'DEFAULT_PORTS = {"http": 80, "https": 443, "ws": 80, "wss": 433, "ftp": 21}', ["C17"]),
     ("is-default-port-relative", U, "            return self._netloc != \"\"\n        return explicit == DEFAULT_PORTS.get(self._scheme)", "            return True\n        return explicit == DEFAULT_PORTS.get(self._scheme)", ["C17"]),
     ("cache-netloc-torn", U, "        c = self._cache\n        split_loc = split_netloc(self._netloc)\n        c[\"raw_user\"], c[\"raw_password\"], c[\"raw_host\"], c[\"explicit_port\"] = split_loc", "        c = self._cache\n        c[\"raw_user\"] = c[\"raw_password\"] = c[\"raw_host\"] = c[\"explicit_port\"] = None\n        split_loc = split_netloc(self._netloc)\n        c[\"raw_user\"], c[\"raw_password\"], c[\"raw_host\"], c[\"explicit_port\"] = split_loc", ["C20"]),
